@@ -366,3 +366,275 @@ def tr_generator_loop(src, qual, coqname, argtypes, state):
         "    else Some (fst (%s_tail %s))\n  end."
         % (coqname, binders, cond, coqname, pargs, coqname, rec_args, coqname, pargs))
     return "\n".join(out)
+
+
+# ======================================================================================================
+# cases added for C13/C02 (namespace tables, declaration validator, fresh-prefix loop, escape tables)
+
+def const_int(e):
+    """integer constant expressions: literals, + - * ** of constants"""
+    if isinstance(e, ast.Constant) and isinstance(e.value, int) and not isinstance(e.value, bool):
+        return e.value
+    if isinstance(e, ast.BinOp) and isinstance(e.op, (ast.Add, ast.Sub, ast.Mult, ast.Pow)):
+        a, b = const_int(e.left), const_int(e.right)
+        if isinstance(e.op, ast.Pow):
+            if b < 0 or b > 64:
+                raise Unsupported("exponent")
+            return a ** b
+        return {ast.Add: a + b, ast.Sub: a - b, ast.Mult: a * b}[type(e.op)]
+    raise Unsupported("not an integer constant: " + ast.dump(e))
+
+
+def module_assignments(src):
+    """top-level `NAME = value` / `NAME: T = value` of a module -> {name: ast value}"""
+    out = {}
+    for n in ast.parse(src).body:
+        if isinstance(n, ast.AnnAssign) and isinstance(n.target, ast.Name) and n.value is not None:
+            out[n.target.id] = n.value
+        elif isinstance(n, ast.Assign) and len(n.targets) == 1 and isinstance(n.targets[0], ast.Name):
+            out[n.targets[0].id] = n.value
+    return out
+
+
+def str_mapping_table(e, consts):
+    """`MappingProxyType({ "k": "v" | NAME, ... })` or a dict display -> [(key, gallina value)]
+    `consts`: {python name: gallina name} for names allowed as values"""
+    if isinstance(e, ast.Call) and isinstance(e.func, ast.Name) and e.func.id == "MappingProxyType" \
+            and len(e.args) == 1 and not e.keywords:
+        e = e.args[0]
+    if not isinstance(e, ast.Dict):
+        raise Unsupported("expected a dict display: " + ast.dump(e)[:200])
+    out = []
+    for k, v in zip(e.keys, e.values):
+        if not (isinstance(k, ast.Constant) and isinstance(k.value, str)):
+            raise Unsupported("table key")
+        if isinstance(v, ast.Constant) and isinstance(v.value, str):
+            g = lit(v.value)
+        elif isinstance(v, ast.Name) and v.id in consts:
+            g = consts[v.id]
+        else:
+            raise Unsupported("table value " + ast.dump(v))
+        if k.value in [x for x, _ in out]:
+            raise Unsupported("duplicate key in table")
+        out.append((k.value, g))
+    return out
+
+
+def pair_table(e):
+    """a tuple/list display of pairs of string constants -> [(a, b)]"""
+    if not isinstance(e, (ast.Tuple, ast.List)):
+        raise Unsupported("expected a tuple display")
+    out = []
+    for x in e.elts:
+        if not (isinstance(x, ast.Tuple) and len(x.elts) == 2 and
+                all(isinstance(y, ast.Constant) and isinstance(y.value, str) for y in x.elts)):
+            raise Unsupported("expected pairs of string constants")
+        out.append((x.elts[0].value, x.elts[1].value))
+    return out
+
+
+def tr_maketrans_comprehension(e, source_name, coq_source):
+    """`str.maketrans({ord(k): f"..{v}.." for k, v in SOURCE [if k != "c"]})` over a table of
+    (one-character string, string) pairs -> Gallina `list (char * str)` built from `coq_source`"""
+    if not (isinstance(e, ast.Call) and isinstance(e.func, ast.Attribute) and e.func.attr == "maketrans"
+            and isinstance(e.func.value, ast.Name) and e.func.value.id == "str" and len(e.args) == 1
+            and not e.keywords and isinstance(e.args[0], ast.DictComp)):
+        raise Unsupported("expected str.maketrans({...comprehension...})")
+    dc = e.args[0]
+    if len(dc.generators) != 1:
+        raise Unsupported("one generator expected")
+    g = dc.generators[0]
+    if not (isinstance(g.target, ast.Tuple) and len(g.target.elts) == 2
+            and all(isinstance(x, ast.Name) for x in g.target.elts)
+            and isinstance(g.iter, ast.Name) and g.iter.id == source_name and not g.is_async):
+        raise Unsupported("comprehension source")
+    k, v = (x.id for x in g.target.elts)
+    if not (isinstance(dc.key, ast.Call) and isinstance(dc.key.func, ast.Name) and dc.key.func.id == "ord"
+            and len(dc.key.args) == 1 and isinstance(dc.key.args[0], ast.Name) and dc.key.args[0].id == k):
+        raise Unsupported("comprehension key must be ord(k)")
+    t = Tr({v: "str"})
+    val, ty = t.expr(dc.value)
+    if ty != "str":
+        raise Unsupported("comprehension value")
+    conds = []
+    for c in g.ifs:
+        if (isinstance(c, ast.Compare) and len(c.ops) == 1 and isinstance(c.ops[0], ast.NotEq)
+                and isinstance(c.left, ast.Name) and c.left.id == k
+                and Tr._onechar(c.comparators[0]) is not None):
+            conds.append("negb (N.eqb %s %d%%N)" % (k, Tr._onechar(c.comparators[0])))
+        else:
+            raise Unsupported("comprehension condition " + ast.dump(c))
+    body = "map (fun '(%s, %s) => (%s, %s)) " % (k, v, k, val)
+    if conds:
+        return body + "(filter (fun '(%s, %s) => (%s)%%bool) %s)" % (k, v, " && ".join(conds), coq_source)
+    return body + coq_source
+
+
+class GuardTr(Tr):
+    """functions of the shape: guards that raise, `if x is None: x = CONST`, final `return`.
+    Types: "str", "optstr" (str | None), "strs" (a collection of strings, only used with `in`).
+    `tables`: {python name: (gallina, "strs")} for module constants usable on the right of `in`.
+    `consts`: {python name: gallina of type str}.  Result type is `res str`."""
+
+    def __init__(self, env, tables, consts, exns):
+        super().__init__(env)
+        self.tables, self.consts, self.exns = tables, consts, exns
+
+    def gexpr(self, e):
+        if isinstance(e, ast.Name) and e.id in self.consts and e.id not in self.env:
+            return self.consts[e.id], "str"
+        if isinstance(e, ast.Compare) and len(e.ops) == 1 and isinstance(e.ops[0], ast.Is) \
+                and isinstance(e.comparators[0], ast.Constant) and e.comparators[0].value is None:
+            g, t = self.gexpr(e.left)
+            if t != "optstr":
+                raise Unsupported("`is None` on a non-optional")
+            return "(match %s with None => true | Some _ => false end)" % g, "bool"
+        if isinstance(e, ast.Compare) and len(e.ops) == 1 and isinstance(e.ops[0], (ast.In, ast.NotIn)):
+            g, t = self.gexpr(e.left)
+            c = e.comparators[0]
+            if isinstance(c, ast.Name) and c.id in self.tables:
+                coll = self.tables[c.id]
+            elif isinstance(c, ast.Name) and self.env.get(c.id) == "strs":
+                coll = c.id
+            elif isinstance(c, (ast.Set, ast.Tuple, ast.List)):
+                items = [self.gexpr(x) for x in c.elts]
+                if any(ty != "str" for _, ty in items):
+                    raise Unsupported("collection display element")
+                coll = "[" + "; ".join(x for x, _ in items) + "]"
+            else:
+                raise Unsupported("right side of `in`: " + ast.dump(c))
+            fn = {"str": "py_in_str", "optstr": "py_in_optstr"}.get(t)
+            if fn is None:
+                raise Unsupported("left side of `in`")
+            r = "(%s %s %s)" % (fn, g, coll)
+            return ("(negb %s)" % r if isinstance(e.ops[0], ast.NotIn) else r), "bool"
+        return self.expr(e)
+
+    def gblock_(self, stmts):
+        if not stmts:
+            raise Unsupported("function falls off the end")
+        s, rest = stmts[0], stmts[1:]
+        if isinstance(s, ast.Expr) and isinstance(s.value, ast.Constant):
+            return self.gblock_(rest)
+        if isinstance(s, ast.Return) and s.value is not None:
+            g, t = self.gexpr(s.value)
+            if t != "str":
+                raise Unsupported("return type")
+            return "Ok %s" % g
+        if isinstance(s, ast.If) and not s.orelse and len(s.body) == 1 and isinstance(s.body[0], ast.Raise):
+            r = s.body[0]
+            if not (isinstance(r.exc, ast.Call) and isinstance(r.exc.func, ast.Name) and r.exc.func.id in self.exns):
+                raise Unsupported("raise form")
+            g, t = self.gexpr(s.test)
+            if t != "bool":
+                raise Unsupported("guard type")
+            return "if %s then %s else\n  %s" % (g, self.exns[r.exc.func.id], self.gblock_(rest))
+        if isinstance(s, ast.If) and not s.orelse and len(s.body) == 1 and isinstance(s.body[0], ast.Assign) \
+                and isinstance(s.test, ast.Compare) and isinstance(s.test.ops[0], ast.Is) \
+                and isinstance(s.test.left, ast.Name) and isinstance(s.body[0].targets[0], ast.Name) \
+                and s.body[0].targets[0].id == s.test.left.id and len(s.body[0].targets) == 1 \
+                and isinstance(s.test.comparators[0], ast.Constant) and s.test.comparators[0].value is None:
+            x = s.test.left.id
+            if self.env.get(x) != "optstr":
+                raise Unsupported("None-default on a non-optional")
+            g, t = self.gexpr(s.body[0].value)
+            if t != "str":
+                raise Unsupported("None-default value")
+            self.env[x] = "str"
+            return "let %s := (match %s with None => %s | Some %s__v => %s__v end) in\n  %s" % (
+                x, x, g, x, x, self.gblock_(rest))
+        raise Unsupported(ast.dump(s)[:300])
+
+
+GUARD_TY = {"str": "str", "optstr": "option str", "strs": "list str"}
+
+
+def tr_guard_function(src, qual, coqname, argtypes, tables, consts, exns):
+    f = find(ast.parse(src), qual)
+    args = [a.arg for a in f.args.args if a.arg not in ("self", "cls")]
+    if f.args.vararg or f.args.kwarg or f.args.kwonlyargs or f.args.defaults or len(args) != len(argtypes):
+        raise Unsupported("signature of " + qual)
+    t = GuardTr(dict(zip(args, argtypes)), tables, consts, exns)
+    binders = " ".join("(%s : %s)" % (a, GUARD_TY[ty]) for a, ty in zip(args, argtypes))
+    return "Definition %s %s : res str :=\n  %s." % (coqname, binders, t.gblock_(f.body))
+
+
+def tr_fresh_name_loop(src, qual, coqname, dict_attr):
+    """a method of exactly this shape (anything else is Unsupported):
+
+        for i in range(BOUND):
+            name = f"..{i}.."
+            if name not in self.<dict_attr>.values():
+                self.<dict_attr>[<arg>] = name
+                return
+        else:
+            raise NotImplementedError(...)
+
+    Emits <coqname>_bound, <coqname>_name, <coqname>_loop (the range loop with its bound as fuel) and
+    <coqname> : dict -> key -> res dict."""
+    f = find(ast.parse(src), qual)
+    args = [a.arg for a in f.args.args if a.arg not in ("self", "cls")]
+    body = [s for s in f.body if not (isinstance(s, ast.Expr) and isinstance(s.value, ast.Constant))]
+    if len(args) != 1 or len(body) != 1 or not isinstance(body[0], ast.For):
+        raise Unsupported("shape of " + qual)
+    loop = body[0]
+    if not (isinstance(loop.target, ast.Name) and isinstance(loop.iter, ast.Call) and isinstance(loop.iter.func, ast.Name)
+            and loop.iter.func.id == "range" and len(loop.iter.args) == 1 and not loop.iter.keywords):
+        raise Unsupported("loop header of " + qual)
+    i = loop.target.id
+    bound = const_int(loop.iter.args[0])
+    if not (len(loop.orelse) == 1 and isinstance(loop.orelse[0], ast.Raise) and isinstance(loop.orelse[0].exc, ast.Call)
+            and isinstance(loop.orelse[0].exc.func, ast.Name) and loop.orelse[0].exc.func.id == "NotImplementedError"):
+        raise Unsupported("for-else of " + qual)
+    lb = loop.body
+    if not (len(lb) == 2 and isinstance(lb[0], ast.Assign) and len(lb[0].targets) == 1
+            and isinstance(lb[0].targets[0], ast.Name) and isinstance(lb[0].value, ast.JoinedStr)
+            and isinstance(lb[1], ast.If) and not lb[1].orelse):
+        raise Unsupported("loop body of " + qual)
+    name = lb[0].targets[0].id
+    parts = []
+    seen_i = False
+    for v in lb[0].value.values:
+        if isinstance(v, ast.Constant) and isinstance(v.value, str):
+            parts.append(lit(v.value))
+        elif isinstance(v, ast.FormattedValue) and v.conversion == -1 and v.format_spec is None \
+                and isinstance(v.value, ast.Name) and v.value.id == i:
+            parts.append("py_str_of_N %s" % i)
+            seen_i = True
+        else:
+            raise Unsupported("f-string of " + qual)
+    if not seen_i:
+        raise Unsupported("generated name does not depend on the counter")
+
+    def is_dict(e):
+        return isinstance(e, ast.Attribute) and isinstance(e.value, ast.Name) and e.value.id == "self" and e.attr == dict_attr
+    test = lb[1].test
+    if not (isinstance(test, ast.Compare) and len(test.ops) == 1 and isinstance(test.ops[0], ast.NotIn)
+            and isinstance(test.left, ast.Name) and test.left.id == name
+            and isinstance(test.comparators[0], ast.Call) and not test.comparators[0].args
+            and isinstance(test.comparators[0].func, ast.Attribute) and test.comparators[0].func.attr == "values"
+            and is_dict(test.comparators[0].func.value)):
+        raise Unsupported("loop test of " + qual)
+    ib = lb[1].body
+    if not (len(ib) == 2 and isinstance(ib[0], ast.Assign) and len(ib[0].targets) == 1
+            and isinstance(ib[0].targets[0], ast.Subscript) and is_dict(ib[0].targets[0].value)
+            and isinstance(ib[0].targets[0].slice, ast.Name) and ib[0].targets[0].slice.id == args[0]
+            and isinstance(ib[0].value, ast.Name) and ib[0].value.id == name
+            and isinstance(ib[1], ast.Return) and ib[1].value is None):
+        raise Unsupported("assignment in " + qual)
+    c = coqname
+    return "\n".join([
+        "Definition %s_bound : N := %d%%N." % (c, bound),
+        "Definition %s_name (%s : N) : str := (%s)." % (c, i, " ++ ".join(parts)),
+        "Fixpoint %s_loop (fuel : nat) (%s : N) (values : list str) : option str :=" % (c, i),
+        "  match fuel with",
+        "  | O => None",
+        "  | S fuel' => let %s := %s_name %s in" % (name, c, i),
+        "      if negb (py_in_str %s values) then Some %s else %s_loop fuel' (N.succ %s) values" % (name, name, c, i),
+        "  end.",
+        "Definition %s (prefixes : list (str * str)) (%s : str) : res (list (str * str)) :=" % (c, args[0]),
+        "  match %s_loop (N.to_nat %s_bound) 0%%N (dict_values prefixes) with" % (c, c),
+        "  | Some %s => Ok (dict_set %s %s prefixes)" % (name, args[0], name),
+        "  | None => Crash OtherError   (* NotImplementedError *)",
+        "  end.",
+    ])
